@@ -8,6 +8,7 @@ import (
 	"go/constant"
 	"go/token"
 	"go/types"
+	"regexp"
 	"sort"
 	"strings"
 
@@ -268,22 +269,26 @@ func s2(w *World, r *Report) {
 				}
 			}
 			r.Check(cleared, "S-2", "PreImage:sig-cleared", "the signature field is empty in the signed encoding", "the signature is not cleared before encoding (nothing could ever verify)", fnSite(w, pf))
-			// prefix
-			okp := false
-			for _, c := range w.callsTo(pf, fref{"fmt", "", "Sprintf"}) {
-				cs := w.canonCall(c.Common(), 0)
-				if bz != nil && strings.Contains(cs, "%s") && strings.Contains(cs, "%d") && strings.HasSuffix(cs, ", [p1, len("+w.Canon(bz)+")])") {
-					okp = true
+			// what a successful call returns, with helper results resolved:
+			// append([]byte(Sprintf("...%s...%d...", chainId, len(rlp))), rlp...)
+			_ = bz
+			rePre := regexp.MustCompile(`^append\(\[\]byte\(fmt\.Sprintf\("[^"]*%s[^"]*%d[^"]*", \[p1, len\(rlp\.EncodeToBytes\(p0\)#0\)\]\)\), rlp\.EncodeToBytes\(p0\)#0\)$`)
+			w.shallowResolve = true
+			vals, complete := w.returnedValues(pf, 0, func(ssa.Value) (bool, bool) { return false, false }, 0)
+			w.shallowResolve = false
+			okp, nv := complete, 0
+			for _, v := range vals {
+				if c, isC := v.(*ssa.Const); isC && c.IsNil() {
+					continue
+				}
+				nv++
+				if !rePre.MatchString(w.canonResolved(v)) {
+					okp = false
 				}
 			}
+			okp = okp && nv > 0
+			okr := okp
 			r.Check(okp, "S-2", "PreImage:prefix", "prefix is formatted from (chainId, len(rlp))", "the pre-image prefix does not contain the chain id and the encoded length", fnSite(w, pf))
-			// result = append(prefix, bz...)
-			okr := false
-			for _, c := range CallsIn(pf) {
-				if b, isB := c.Common().Value.(*ssa.Builtin); isB && b.Name() == "append" && len(c.Common().Args) == 2 && bz != nil && sameValue(c.Common().Args[1], bz) && strings.Contains(w.Canon(c.Common().Args[0]), "fmt.Sprintf(") {
-					okr = true
-				}
-			}
 			r.Check(okr, "S-2", "PreImage:concat", "pre-image = prefix ++ rlp(tx)", "the pre-image is not prefix ++ rlp(tx)", fnSite(w, pf))
 		}
 	}
